@@ -29,6 +29,20 @@ def shape_clause(model, rep, funcs):
         if f is None:
             continue
         cs = _irfftn_calls(f)
+        if not cs:
+            # the round trip through the half spectrum lives in a private helper that every filtering path returns: read it there
+            tgt = set()
+            for r in walk_no_nested(f.node):
+                if isinstance(r, ast.Return) and isinstance(r.value, ast.Call) and norm_src(r.value) != "img":
+                    try:
+                        k_, t_ = model.resolve_call(f, r.value)
+                    except Exception:
+                        k_, t_ = None, None
+                    if k_ == "repo" and t_ and len(t_) == 1 and t_[0].name.startswith("_"):
+                        tgt.add(t_[0])
+            if len(tgt) == 1:
+                f = next(iter(tgt))
+                cs = _irfftn_calls(f)
         rep.instance("S2", f.loc())
         if not cs:
             rep.ob("S2", a, "real-space low-pass goes through irfftn", None, "no irfftn call", node=f.node, fn=f, clause="1 shape", stmt=f"def lowpass_filter ({a})")
